@@ -19,6 +19,7 @@ type Clause struct {
 	Line  int
 	// let: names bound
 	LetNames []string
+	Foreach  *Foreach // clause-level family (ensures only)
 }
 
 type LoopSpec struct {
@@ -191,11 +192,25 @@ func Parse(path, src string) (*File, error) {
 				label = text[1:j]
 				text = strings.TrimSpace(text[j+1:])
 			}
+			// clause-level family: "foreach k in SRC [where W] :: body" yields one obligation per instance
+			var fe *Foreach
+			if strings.HasPrefix(text, "foreach ") {
+				parts := splitTopStr(text, "::")
+				if len(parts) < 2 {
+					return nil, errf("%s: foreach without '::'", kind)
+				}
+				f, err := parseForeach(strings.TrimPrefix(strings.TrimSpace(parts[0]), "foreach "))
+				if err != nil {
+					return nil, errf("%s: %v", kind, err)
+				}
+				fe = f
+				text = strings.TrimSpace(strings.Join(parts[1:], "::"))
+			}
 			e, err := ParseExpr(text)
 			if err != nil {
 				return nil, errf("%s: %v (after desugaring: %s)", kind, err, Desugar(text))
 			}
-			return &Clause{Kind: kind, Label: label, Text: oneLine(text), Expr: e, File: path, Line: c.line}, nil
+			return &Clause{Kind: kind, Label: label, Text: oneLine(text), Expr: e, File: path, Line: c.line, Foreach: fe}, nil
 		}
 		switch c.kw {
 		case "func", "extern", "iface":
